@@ -110,6 +110,8 @@ def gen_sim(seed, i, pool):
         e1[f] = gen_env(rng, idents, leads)[f]
         envs[1] = e1
     return {"id": i, "grammar_name": name, "grammar_hex": text.hex(), "derives": derives, "ctx": ctx, "prefix": prefix, "format": fmt, "companions": companions, "envs": envs,
+            # the Compile routes may find a destination made from another grammar by an earlier run (newer than the grammar)
+            "prefill_hex": (rng.choice(pool)[1].hex() if rng.coin(250) else None),
             "rustfmt_toml": (rng.choice(["hard_tabs = true\n", "max_width = 60\n", "tab_spaces = 2\n"]) if fmt and rng.coin(600) else None)}
 
 
@@ -215,6 +217,15 @@ def run_route(route, sim, env, simdir, k, stats=None):
         argv = [sim_bin("driver"), "compile", "--file", g_sp] + ordered(setting_groups() + [["--dest", d_sp]])
         if route == "compile_exit":
             argv.append("--exit")
+    if sim.get("prefill_hex") and route.startswith("compile"):
+        with open(gpath, "wb") as f:
+            f.write(bytes.fromhex(sim["prefill_hex"]))
+        run_child(argv, cwd, e, entropy=env["entropy"], clock=env["clock"])
+        with open(gpath, "wb") as f:
+            f.write(bytes.fromhex(sim["grammar_hex"]))
+        os.utime(gpath, (631152000, 631152000))  # the current text looks older than what the earlier run left behind
+        if os.path.isfile(dest):
+            os.utime(dest, (2208988800, 2208988800))
     c = run_child(argv, cwd, e, entropy=env["entropy"], clock=env["clock"], heap_pad=env["heap_pad"], stdout_path=stdout_path,
                   stdout_tty=stdout_tty, cpus=env.get("cpus"))
     r = {"crashed": c.crashed(), "status": c.status_word(), "ok": False, "bytes": None, "canary": None, "stderr": c.err[-300:].decode(errors="replace")}
